@@ -105,11 +105,13 @@ func (u *memoryManagementUnit) fetchCacheLine(addr int32) []int8 {
 
 func (u *memoryManagementUnit) pushLineToL1D(addr comp.AlignedAddress, line []int8) {
 	addr -= addr % l1DCacheLineSize
-	evicted := u.l1d.PushLine(addr, line)
-	if len(evicted) == 0 {
+	victim := u.l1d.PushLineWithEvictionWarning(addr, line)
+	if victim == nil {
 		return
 	}
-	u.writeToMemory(int32(addr), line)
+	// Write back the evicted line
+	u.l1d.EvictCacheLine(victim.Boundary[0])
+	u.writeToMemory(int32(victim.Boundary[0]), victim.Data)
 }
 
 func (u *memoryManagementUnit) writeToL1D(addr int32, data []int8) {
